@@ -4,6 +4,8 @@ package main
 // frame axioms instantiated on read.
 
 import (
+	"os"
+	"runtime/debug"
 	"fmt"
 	"go/types"
 	"regexp"
@@ -76,6 +78,29 @@ type State struct {
 	guards    []guardAt // branch conditions assumed so far (event index, condition)
 	arrPred   *ssa.BasicBlock
 	mergedAtStop bool
+	// names: the source-level variables as of this point of this path (set when
+	// the defining phi / allocation / debug reference is executed)
+	names map[string]nameBind
+}
+
+// nameBind: the current value of a source variable, or (cell) a pointer to the
+// memory cell holding it.
+type nameBind struct {
+	v    Value
+	cell bool
+}
+
+func (s *State) setName(n string, v Value, cell bool) {
+	if n == "" || n == "_" || v.T == nil {
+		return
+	}
+	if s.names == nil {
+		s.names = map[string]nameBind{}
+	}
+	if os.Getenv("GOWP_NAMES") == n {
+		fmt.Fprintf(os.Stderr, "setName %s = %s (%v)\n%s\n", n, v.S, v.T, debug.Stack())
+	}
+	s.names[n] = nameBind{v, cell}
 }
 
 func (s *State) clone() *State {
@@ -83,6 +108,10 @@ func (s *State) clone() *State {
 	n.env = make(map[ssa.Value]Value, len(s.env))
 	for k, v := range s.env {
 		n.env[k] = v
+	}
+	n.names = make(map[string]nameBind, len(s.names))
+	for k, v := range s.names {
+		n.names[k] = v
 	}
 	n.events = s.events[:len(s.events):len(s.events)]
 	n.inst = make(map[string]bool, len(s.inst))
